@@ -37,6 +37,9 @@ type C12Case struct {
 	// (0: the default): a file deeper than Depth, or longer than MaxSize bytes, is no member
 	Depth   int `json:"depth,omitempty"`
 	MaxSize int `json:"max_size,omitempty"`
+	// Late files (indices len(Init) .. len(Init)+Late-1) do not exist at first: the first update that
+	// names one creates it. Include directives may name them before (dangling) or match them by pattern.
+	Late int `json:"late,omitempty"`
 }
 
 func (c *C12Case) loader() *include.Loader {
@@ -271,7 +274,7 @@ func c12Check(c *C12Case) (ds []ev.Discrepancy, cls []string) {
 	os.Setenv("HOME", root)
 	defer os.Setenv("HOME", oldHome)
 	n := len(c.Init)
-	cur := make([]*m.Journal, n)
+	cur := make([]*m.Journal, n+c.Late)
 	write := func(i int) string {
 		txt := m.Render(cur[i]).Text
 		if err := os.WriteFile(filepath.Join(root, gen.WSNames[i]), []byte(txt), 0o644); err != nil {
@@ -291,6 +294,9 @@ func c12Check(c *C12Case) (ds []ev.Discrepancy, cls []string) {
 	classes := map[string]bool{}
 	includesOf := func(j *m.Journal) string {
 		var o []string
+		if j == nil {
+			return "<no file>"
+		}
 		for _, e := range j.Entries {
 			if e.Dir != nil && e.Dir.Kind == "include" {
 				o = append(o, e.Dir.Path)
@@ -302,7 +308,17 @@ func c12Check(c *C12Case) (ds []ev.Discrepancy, cls []string) {
 		if includesOf(cur[op.File]) != includesOf(op.Journal) {
 			classes["include-list-changed"] = true
 		}
-		before := len(m.Render(cur[op.File]).Text)
+		before := 0
+		if cur[op.File] != nil {
+			before = len(m.Render(cur[op.File]).Text)
+		} else {
+			classes["file-created"] = true
+		}
+		for _, e := range op.Journal.Entries {
+			if e.Dir != nil && e.Dir.Kind == "include" && strings.ContainsAny(e.Dir.Path, "*[?") {
+				classes["include-pattern"] = true
+			}
+		}
 		cur[op.File] = op.Journal
 		txt := write(op.File)
 		if c.MaxSize > 0 && (before > c.MaxSize) != (len(txt) > c.MaxSize) {
@@ -391,18 +407,50 @@ func TestC12(t *testing.T) {
 		}
 		steps := rapid.IntRange(1, 8).Draw(t, "steps")
 		cur := append([]*m.Journal{}, c.Init...)
+		total := n
+		if n < len(gen.WSNames) && !disabled("c12.late-files") && rapid.IntRange(0, 2).Draw(t, "late") == 0 {
+			c.Late = rapid.IntRange(1, len(gen.WSNames)-n).Draw(t, "nlate")
+			total = n + c.Late
+			for k := 0; k < c.Late; k++ {
+				cur = append(cur, nil)
+			}
+		}
+		// include patterns beside the literal paths: what they match changes when files appear
+		withPattern := func(f int, j *m.Journal) *m.Journal {
+			if disabled("c12.include-pattern") || rapid.IntRange(0, 3).Draw(t, "pattern") != 0 {
+				return j
+			}
+			pats := []string{"*.journal", "sub/*.journal", "[ab].journal", "**/*.journal"}
+			if strings.HasPrefix(gen.WSNames[f], "sub/") {
+				pats = []string{"*.journal", "../*.journal", "[cd].journal"}
+			}
+			nj := &m.Journal{NL: j.NL, Entries: append([]m.Entry{}, j.Entries...)}
+			at := rapid.IntRange(0, len(nj.Entries)).Draw(t, "patat")
+			e := m.Entry{Dir: &m.Directive{Kind: "include", Path: rapid.SampledFrom(pats).Draw(t, "pat")}, Blank: 1}
+			nj.Entries = append(nj.Entries[:at:at], append([]m.Entry{e}, nj.Entries[at:]...)...)
+			return nj
+		}
+		if c.Late > 0 || rapid.IntRange(0, 3).Draw(t, "initpattern") == 0 {
+			for i := range c.Init {
+				c.Init[i] = withPattern(i, c.Init[i])
+				cur[i] = c.Init[i]
+			}
+		}
 		for s := 0; s < steps; s++ {
-			f := rapid.IntRange(0, n-1).Draw(t, "file")
+			f := rapid.IntRange(0, total-1).Draw(t, "file")
 			var j *m.Journal
-			if k := rapid.IntRange(0, 4).Draw(t, "tweak"); k == 0 {
+			if cur[f] == nil {
+				// the file is created
+				j = withPattern(f, gen.GenFileWithIncludes(t, p, pools, c12JOpts, f, total))
+			} else if k := rapid.IntRange(0, 4).Draw(t, "tweak"); k == 0 {
 				// the same journal, said slightly differently: postings in another order, a commodity on
 				// the other side of its number, a comment line more — what typing in a file looks like
 				j = c12Tweak(t, cur[f])
 			} else if rapid.IntRange(0, 2).Draw(t, "bodyonly") == 0 {
 				// same include list, other body: the update path that does not refresh the include tree
-				j = gen.GenFileIncluding(t, p, pools, c12JOpts, f, gen.IncludeTargets(cur[f], f, n))
+				j = gen.GenFileIncluding(t, p, pools, c12JOpts, f, gen.IncludeTargets(cur[f], f, total))
 			} else {
-				j = gen.GenFileWithIncludes(t, p, pools, c12JOpts, f, n)
+				j = withPattern(f, gen.GenFileWithIncludes(t, p, pools, c12JOpts, f, total))
 			}
 			cur[f] = j
 			c.Ops = append(c.Ops, C12Op{File: f, Journal: j})
